@@ -8,6 +8,44 @@ PROPS["C12"] = dict(
               thorough=dict(cases=1600000, procs=16, budget_s=3000)),
            py("vv.exe_c12", quick=dict(cases=480, procs=8, budget_s=600),
               thorough=dict(cases=16000, procs=16, budget_s=3000))],
-    rule="(see below)",
-    assumptions=COMMON_ASSUME,
+    rule=("h_c12 (library, rapidcheck): grids of 2..300 points (60 % <= 12, 30 % <= 60), uniform (binary / decimal steps), mildly non-uniform "
+          "(neighbour ratio <= 4), strongly non-uniform (interval lengths over three decades) and clustered, offsets -100..100; ordinates from "
+          "poly<=3, trig, exp, noise, spikes, 1e3/1e6 offset + noise, straight line, kink, LJ-like; types linear / cubic / Akima, boundaries "
+          "natural / periodic (y_0 = y_N). "
+          "interp: S(x_k)=y_k at every knot; S (and S' for cubic/Akima) continuous across every interior knot by evaluation at nextafter(x_k,-inf) "
+          "and x_k; natural cubic S''=0 at both ends (from three values of S'); periodic: equal slope (cubic, Akima) and curvature (cubic) at "
+          "the two ends; fewer points than the minimum must be rejected with std::invalid_argument. "
+          "line: data y=a x+b reproduced at knots, mid points, nextafter(knot) and generated points inside the grid (natural). "
+          "linearity: S[a y+b z] = a S[y]+b S[z] and the same for S' (linear, cubic; knots, 3/8 points, generated points incl. slightly outside). "
+          "fit: fit grid from Spline::GenerateGrid (step divides the range or not; grid points checked), >= 2 data points per fit interval at "
+          "fractions k/16; data = natural cubic spline / piecewise linear function of the fit grid (+ optional noise): reproduction to 1e-8, "
+          "residual orthogonal to every cardinal spline / hat function of the fit grid (normal equations on the constrained space, own long-double "
+          "basis), fitted cubic spline C1 at the knots with zero end curvature. "
+          "smooth: Table::Smooth(0..200) keeps end points, abscissae, flags bit for bit; straight-line data on a uniform grid unchanged; "
+          "tables with < 2 rows rejected. "
+          "Tolerances: closed-form bounds from the operations (cubic: rounding of the slope differences 8 eps Y/h propagated through the "
+          "diagonally dominant system + dense-QR term N eps max(1,hmax)/min(1,hmin) |f''|, reference f'' from an own long-double solver; "
+          "Akima: 64 eps (Y + 16 h max|slope|); linear: 16 eps (Y + max|slope| |x|max)). "
+          "Non-trivial: non-uniform grid or >= 3 points (every knot is an evaluation point); linearity additionally a,b != 0; fit: >= 3 knots and "
+          "more data than knots; smooth: >= 1 pass on >= 3 rows. "
+          "vv.exe_c12 (csg_resample, Hypothesis): tables on a 1e-6 decimal lattice (2..60 rows, uniform or non-uniform with ratios <= 20, "
+          "flags i/o/u in runs or random), all --type x --boundaries (none, natural, periodic, derivativezero), output grids same / coarser / "
+          "finer / offset / sub-range / beyond the data / entirely left of the data / unrelated step, optional --comment; --fitgrid cases with "
+          "4..10 data points per fit interval, step dividing the range or not, data beyond the fit grid, --nocut. Oracles: value and flag at every "
+          "output point that coincides with an input point (flag: ambiguity band when the accumulated grid point is > 2e-13 right of the input "
+          "point); scipy CubicSpline(natural), own linear formula, scipy Akima1DInterpolator on pieces 2..N-4 (tie-rule knots skipped); periodic: "
+          "derivative equal at the two ends; --derivative vs exact piecewise differentiation (Lagrange on 2/4 nodes inside one piece, both sides "
+          "at break points) of a second run on a >= 4x finer grid, tolerance from the 10 printed digits; value independent of the output grid; "
+          "fit of a function of the spline space reproduced; documented rejections (derivativezero interpolation, Akima fit, too few points) "
+          "accepted as such; any sanitizer report / abort is a failure. Non-trivial: non-uniform input or an output point on an interior "
+          "input point; fit: >= 3 knots."),
+    assumptions=COMMON_ASSUME + [
+        "intervals shorter than 64 ulp of the abscissa are not 'strictly increasing' in any useful sense and are discarded",
+        "Table::Smooth: straight-line clause only for uniform grids (the 1-2-1 filter acts on the index)",
+        "fit: every interval of the fit grid holds >= 2 data points separated by >= 1/16 of the interval, the pinned last interval is not "
+        "shorter than 5 % of the others; boundaries natural (the periodic / derivativezero fit variants are only executed for sanitizer, "
+        "rejection and derivative consistency in the exe part)",
+        "Akima end slopes decided by the 0/0 tie rule (both weight differences < 1e-6 of the slopes) are not compared",
+        "csg_resample: the grid min:step:max has max = min + n*step on the decimal lattice, so the number of rows does not hinge on rounding",
+    ],
 )
